@@ -1,11 +1,14 @@
 """C15 — volume-weighted resampling draws grains in proportion to their volume.
 
-Proved on the real resample_orientations for M = 1, 2, 3 grains, symbolic volumes and symbolic uniform draws (bounded in M:
-the grain count is concrete in the symbolic run; the statement is uniform in M but the induction over the sorted cumulative
-sum is not mechanised): with argsort / searchsorted / the RNG under contract, every output pair is an input grain of the same
-snapshot with its own volume, chosen iff cum[k-1] < u <= cum[k] (an interval whose length is that grain's volume, so that
-zero-volume grains are never drawn for u in the open interval).  Shape rejection is enumerated exhaustively over shape
-classes.  Convergence of sample statistics and seed reproducibility: bounded stand-in.  Level claimed: other.
+Proved on the real resample_orientations (a) for M = 1, 2, 3 grains with numpy executing argsort / cumsum on symbolic volumes
+(every admissible order and search result explored), and (b) for EVERY grain count M >= 1 and sample count (`lifted`): the
+arrays are index -> term functions, numpy's argsort (a permutation that sorts ascending), cumsum (prefix sums; the laws are
+lean/PvSigma.lean prefix_zero/step/total/mono and perm), searchsorted (a[c-1] < u <= a[c] on an ascending array) and the
+generator (A-RNG) are contracts instantiated at the generic sample: every output pair is an input grain of the same snapshot
+with its own volume, chosen iff cum[k-1] < u <= cum[k] (an interval whose length is that grain's volume, so that zero-volume
+grains are never drawn for u in the open interval); index ranges and the ascending precondition of searchsorted are
+obligations too.  Shape rejection is enumerated exhaustively over shape classes.  Convergence of sample statistics and seed
+reproducibility: bounded stand-in.  Level claimed: other.
 """
 import itertools
 
@@ -24,7 +27,7 @@ FN = "pydrex.stats.resample_orientations"
 def run(run):
     run.assume("S-REAL", "S-PY", "S-NUMPY", "A-RNG")
     run.level_override = "other"
-    run.fork_map(_section, [("sym", 1), ("sym", 2), ("sym", 3), ("shapes",)])
+    run.fork_map(_section, [("sym", 1), ("sym", 2), ("sym", 3), ("shapes",), ("lifted", False), ("lifted", True)])
     bounded(run)
 
 
@@ -32,6 +35,8 @@ def _section(run, item):
     try:
         if item[0] == "sym":
             symbolic(run, item[1])
+        elif item[0] == "lifted":
+            lifted(run, item[1])
         else:
             shapes(run)
     except E.UNSUPPORTED_EXC as e:
@@ -153,6 +158,191 @@ def symbolic(run, M, ns=2):
                 lo = S.zz(a[c_ - 1]) if c_ > 0 else z3.RealVal(0)
                 run.prove(f"{tag}/path{pi}/sample {j}: drawn iff u in (cum[k-1], cum[k]], an interval of length equal to the grain's volume", FN, H, S.zz(a[c_]) - lo == S.zz(of[0, j]), structural=True)
     run.exact(f"{tag}/output shapes (N, n_samples, 3, 3), (N, n_samples), n_samples defaults to M; one generator seeded with the given seed, one draw of n_samples uniforms per snapshot", FN, allok, f"{len(ex.paths)} paths")
+
+
+# ----------------------------------------------------------------------------- symbolic grain count
+class _LV:
+    """A 1-D (or Mx3x3) array of symbolic length: index -> z3 term(s)."""
+
+    def __init__(s, n, fn, tail=(), kind="real", role=""):
+        s.n, s.fn, s.tail, s.kind, s.role = n, fn, tuple(tail), kind, role
+        s.gathers = []
+
+    @property
+    def shape(s):
+        return (S.SymInt(s.n),) + s.tail
+
+    def __getitem__(s, key):
+        if isinstance(key, _LV) and key.kind == "int":
+            out = _LV(key.n, (lambda k, f=s.fn, g=key.fn: f(g(k))), s.tail, s.kind, role=f"{s.role}[{key.role}]")
+            _LIFT["gathers"].append((s, key))
+            return out
+        raise E.Unsupported(f"indexing a lifted array with {type(key).__name__}")
+
+    def cumsum(s, *a, **k):
+        if a or k or s.kind != "real" or s.tail:
+            raise E.Unsupported("cumsum variant")
+        _LIFT["cumsum_of"].append(s)
+        return _LV(s.n, (lambda k_: _LIFT["CUM"](k_)), (), "real", role="cumsum")
+
+    def __setitem__(s, key, val):
+        if isinstance(key, int) and key == -1 and isinstance(val, (int, float)):
+            old, n = s.fn, s.n
+            s.fn = lambda k_, old=old, n=n, val=val: z3.If(k_ == n - 1, z3.RealVal(val), old(k_))
+            _LIFT["overwrites"].append((s, key, val))
+            return
+        raise E.Unsupported("element assignment on a lifted array")
+
+
+class _Stack:
+    """N = 1 snapshots of a lifted array (shape (1, M, ...))."""
+
+    def __init__(s, lv):
+        s.lv = lv
+
+    @property
+    def shape(s):
+        return (1,) + s.lv.shape
+
+    def __len__(s):
+        return 1
+
+    def __iter__(s):
+        return iter([s.lv])
+
+
+class _OutBuf:
+    def __init__(s, shape):
+        s.shape, s.rows = tuple(shape), {}
+
+    def __setitem__(s, key, val):
+        if isinstance(key, tuple) and len(key) == 2 and key[1] is Ellipsis and isinstance(key[0], int):
+            s.rows[key[0]] = val
+            return
+        raise E.Unsupported("assignment pattern on the output buffer")
+
+
+_LIFT = {}
+
+
+def lifted(run, given_ns):
+    """The real resample_orientations for a symbolic number of grains M (and of samples), N = 1 snapshot, with numpy's argsort,
+    cumsum, searchsorted and the generator under contract (instantiated at the generic sample).  Decides for every M >= 1:
+    index ranges, "each sample is an input grain with its own volume", "never a zero-volume grain", "drawn iff u falls into an
+    interval of length equal to the grain's volume", and the ascending-array precondition of searchsorted."""
+    ST = real_module("pydrex.stats")
+    I, Rl = z3.IntSort(), z3.RealSort()
+    M, NS, j, kk = z3.Int("M"), z3.Int("NS"), z3.Int("j"), z3.Int("k")
+    FR, ORI = z3.Function("frac", I, Rl), z3.Function("orient", I, I, I, Rl)
+    SIG, CUM, U, CNT = z3.Function("sigma", I, I), z3.Function("cum", I, Rl), z3.Function("u", I, Rl), z3.Function("count_less", I, I)
+    _LIFT.clear()
+    _LIFT.update(CUM=CUM, gathers=[], cumsum_of=[], overwrites=[], searches=[], seeds=[], draws=[], argsorts=[])
+    frac = _LV(M, lambda g: FR(g), (), "real", role="frac")
+    orient = _LV(M, lambda g: [[ORI(g, a, b) for b in range(3)] for a in range(3)], (3, 3), "mat", role="orient")
+    seed_obj = object()
+
+    class RNG:
+        def random(s_, k):
+            n = k.z if isinstance(k, S.SymInt) else z3.IntVal(int(k))
+            _LIFT["draws"].append(n)
+            return _LV(n, lambda q: U(q), (), "real", role="u")
+
+    class RandomStub:
+        @staticmethod
+        def default_rng(seed=None):
+            _LIFT["seeds"].append(seed)
+            return RNG()
+
+    class Shim:
+        random = RandomStub
+
+        @staticmethod
+        def asarray(x, *a, **k):
+            return x
+
+        @staticmethod
+        def empty(shape, *a, **k):
+            return _OutBuf(shape)
+
+        @staticmethod
+        def argsort(a, *args, **k):
+            if not isinstance(a, _LV) or args or k:
+                raise E.Unsupported("argsort variant")
+            _LIFT["argsorts"].append(a)
+            return _LV(a.n, lambda q: SIG(q), (), "int", role="sigma")
+
+        @staticmethod
+        def searchsorted(a, v, side="left", sorter=None):
+            if side not in ("left", "right") or sorter is not None or not isinstance(a, _LV) or not isinstance(v, _LV):
+                raise E.Unsupported("searchsorted variant")
+            _LIFT["searches"].append((a, v))
+            _LIFT["side"] = side
+            return _LV(v.n, lambda q: CNT(q), (), "int", role="count_less")
+
+        def __getattr__(s_, nm):
+            raise E.Unsupported(f"np.{nm} on lifted data")
+
+    g = dict(ST.__dict__)
+    g.update(np=Shim())
+    f = E.rebind_function(ST.resample_orientations, g)
+    c = E.Ctx([M >= 1, NS >= 1])
+    E.Ctx.cur = c
+    c.reset_path([])
+    tag = f"resample[all M, n_samples {'given' if given_ns else 'default'}]"
+    out_o, out_f = f(_Stack(orient), _Stack(frac), S.SymInt(NS) if given_ns else None, seed_obj)
+    n_s = NS if given_ns else M
+    L = _LIFT
+    ok_struct = (isinstance(out_o, _OutBuf) and isinstance(out_f, _OutBuf) and set(out_o.rows) == {0} and set(out_f.rows) == {0} and len(L["seeds"]) == 1 and L["seeds"][0] is seed_obj
+                 and len(L["draws"]) == 1 and len(L["searches"]) == 1 and len(L["argsorts"]) == 1 and len(L["cumsum_of"]) == 1 and isinstance(out_o.rows[0], _LV) and isinstance(out_f.rows[0], _LV))
+    if not ok_struct:
+        run.undecided(tag, FN, "the call structure differs from the contract's (one generator from the given seed, one draw, one argsort, one cumulative sum, one search per snapshot): decided for M <= 3 and by the stand-in")
+        return
+    shp_ok = len(out_o.shape) == 4 and len(out_f.shape) == 2 and out_o.shape[0] == 1 and out_f.shape[0] == 1 and tuple(out_o.shape[2:]) == (3, 3)
+    nsz = [sh.z if isinstance(sh, S.SymInt) else (sh if z3.is_expr(sh) else z3.IntVal(int(sh))) for sh in (out_o.shape[1], out_f.shape[1], out_o.rows[0].n, out_f.rows[0].n, L["draws"][0])]
+    a_lv, v_lv = L["searches"][0]
+    srt = L["argsorts"][0]
+    cs = L["cumsum_of"][0]
+    # --- contracts of the numpy callees, instantiated where the obligations look
+    base = list(c.hyps) + list(c.pc) + [j >= 0, j < n_s]
+    cj = CNT(j)
+    inst = [cj, cj - 1, kk, kk + 1, z3.IntVal(0), M - 1]
+    sort_arg = srt.fn  # what was sorted
+    H = list(base)
+    for q in inst:
+        inr = z3.And(q >= 0, q < M)
+        H.append(z3.Implies(inr, z3.And(SIG(q) >= 0, SIG(q) < M)))  # argsort: a permutation of range(M)
+        H.append(z3.Implies(z3.And(q >= 0, q + 1 < M), sort_arg(SIG(q)) <= sort_arg(SIG(q + 1))))  # ... that sorts ascending
+        H.append(z3.Implies(z3.And(q >= 1, q < M), CUM(q) == CUM(q - 1) + cs.fn(q)))  # cumsum: prefix sums
+        H.append(z3.Implies(inr, FR(SIG(q)) >= 0))  # input: volumes are non-negative
+    H.append(CUM(0) == cs.fn(0))
+    TOT = z3.Real("SUM_frac")
+    H.append(TOT == 1)  # input: volumes sum to one
+    H.append(CUM(M - 1) == TOT)  # cumsum total = sum over the permuted array = sum of the array (PvSigma.prefix_total, perm)
+    H.append(z3.And(U(j) > 0, U(j) < 1))  # A-RNG: open interval
+    # searchsorted (side='left') on an ascending array
+    if L.get("side", "left") == "left":
+        H += [cj >= 0, cj <= a_lv.n, z3.Implies(cj > 0, a_lv.fn(cj - 1) < v_lv.fn(j)), z3.Implies(cj < a_lv.n, v_lv.fn(j) <= a_lv.fn(cj))]
+    else:
+        H += [cj >= 0, cj <= a_lv.n, z3.Implies(cj > 0, a_lv.fn(cj - 1) <= v_lv.fn(j)), z3.Implies(cj < a_lv.n, v_lv.fn(j) < a_lv.fn(cj))]
+    P = lambda name, goal, kind="post": run.prove(f"{tag}/{name}", FN, H, goal, structural=True, kind=kind)
+    run.exact(f"{tag}/shapes (1, n_samples, 3, 3) and (1, n_samples); one generator from the given seed; one draw of n_samples uniforms", FN, bool(shp_ok), f"{out_o.shape} {out_f.shape}")
+    P("n_samples of every buffer, row and draw is the requested number (M by default)", z3.And(*[x == n_s for x in nsz]))
+    P("what is sorted is the snapshot's own volumes; the cumulative sum runs over the sorted volumes; the search is of the draws in it",
+      z3.And(sort_arg(kk) == FR(kk), cs.fn(kk) == FR(SIG(kk)), v_lv.fn(j) == U(j), a_lv.n == M, srt.n == M))
+    P("precondition of searchsorted: the searched array is ascending (generic k)", z3.Implies(z3.And(kk >= 0, kk + 1 < M), a_lv.fn(kk) <= a_lv.fn(kk + 1)), kind="safety")
+    P("the drawn index is within 0..M-1", z3.And(cj >= 0, cj <= M - 1), kind="safety")
+    for (arr, key) in L["gathers"]:
+        at = j if key.role == "count_less" else kk  # the generic sample / the generic position
+        P(f"index range of {arr.role}[{key.role}] (generic element)", z3.Implies(z3.And(at >= 0, at < key.n), z3.And(key.fn(at) >= 0, key.fn(at) < arr.n)), kind="safety")
+    gsel = SIG(cj)
+    of_j = out_f.rows[0].fn(j)
+    oo_j = out_o.rows[0].fn(j)
+    P("sample j is an input grain of the same snapshot paired with its own volume (witness: grain sigma(count_less(j)))",
+      z3.And(gsel >= 0, gsel < M, of_j == FR(gsel), *[oo_j[a][b] == ORI(gsel, a, b) for a in range(3) for b in range(3)]))
+    P("sample j has positive volume (zero-volume grains are never drawn)", of_j > 0)
+    P("sample j is drawn iff u falls into (cum[k-1], cum[k]], an interval whose length is the grain's volume", a_lv.fn(cj) - z3.If(cj > 0, a_lv.fn(cj - 1), z3.RealVal(0)) == of_j)
+    run.canary(f"{tag}/canary", FN, H, of_j > 1)
+    E.Ctx.cur = None
 
 
 def shapes(run):
